@@ -234,6 +234,9 @@ type Built struct {
 	AddErr  map[string]*ErrInfo // AddType result per name (only failures)
 	RuleErr map[string]*ErrInfo // AddRule result per name (only failures)
 	Escapes []Escape
+	// Loaded: type objects that some AddType accepted (on the root or, with Nest, on another type). A type
+	// object that nobody registered has never been loaded; it is not an "accepted schema" and is not converted.
+	Loaded map[string]bool
 }
 
 func (b *Built) trap(op string, f func()) {
@@ -250,7 +253,7 @@ func Build(p Project) *Built { return BuildSharing(p, nil) }
 // object is registered in every schema that may use it.
 func BuildSharing(p Project, from *Built) *Built {
 	b := &Built{P: p, Types: map[string]schema.Schema{}, Rules: map[string]*enum.Enum{},
-		AddErr: map[string]*ErrInfo{}, RuleErr: map[string]*ErrInfo{}}
+		AddErr: map[string]*ErrInfo{}, RuleErr: map[string]*ErrInfo{}, Loaded: map[string]bool{}}
 	b.S = jschema.New(p.Name(), p.Root)
 	for _, r := range p.Rules {
 		r := r
@@ -281,6 +284,9 @@ func BuildSharing(p Project, from *Built) *Built {
 		// other, so what a second root schema gets from the same object is the next one by design)
 		if from != nil && !t.Regex && from.Types[t.Name] != nil && from.typeText(t.Name) == typeKey(t) {
 			ts = from.Types[t.Name]
+			if from.Loaded[t.Name] {
+				b.Loaded[t.Name] = true // (loaded when the earlier build registered it)
+			}
 		} else if t.Regex {
 			ts = regex.New(t.FileName(), t.Text)
 		} else {
@@ -332,7 +338,11 @@ func BuildSharing(p Project, from *Built) *Built {
 			for _, u := range p.Types {
 				u := u
 				if u.Name != t.Name && names(t.Text, u.Name) {
-					b.trap("AddType(nested)", func() { _ = js.AddType(u.Name, b.Types[u.Name]) })
+					b.trap("AddType(nested)", func() {
+						if js.AddType(u.Name, b.Types[u.Name]) == nil {
+							b.Loaded[u.Name] = true
+						}
+					})
 				}
 			}
 		}
@@ -346,6 +356,8 @@ func BuildSharing(p Project, from *Built) *Built {
 		b.trap("AddType", func() {
 			if err := b.S.AddType(t.Name, ts); err != nil {
 				b.AddErr[t.Name] = Describe(err)
+			} else {
+				b.Loaded[t.Name] = true
 			}
 		})
 	}
@@ -472,6 +484,9 @@ func ObserveBuilt(b *Built) *Outcome {
 		for _, n := range names {
 			if _, bad := b.AddErr[n]; bad {
 				continue
+			}
+			if _, isJSchema := b.Types[n].(*jschema.JSchema); isJSchema && !b.Loaded[n] {
+				continue // (a regex schema needs no loading)
 			}
 			n := n
 			b.trap("OpenAPI(type)", func() {
